@@ -6,6 +6,15 @@ ROOT = os.path.dirname(os.path.dirname(os.path.abspath(__file__)))
 
 # id -> (engine, level, technique, level text, level note)
 T = {
+ "C05": ("refmodel", "exploration", "runtime monitor: Redis-list reference model; bounded-exhaustive state x operation x argument sweep on the exported list type plus one-operation-per-transaction histories with full observation",
+         "Exhaustive for the bounded scope on ds/list.List (781 states x 3 construction paths x all arguments, all short sequences), random long sequences, and transaction-level histories with reopen; every call result and resulting list compared with the model.",
+         "Model tolerates the documented error-instead-of-clamp choices; a panic is never tolerated."),
+ "C06": ("refmodel", "exploration", "runtime monitor: mathematical-set reference model; BFS over all reachable states of the exported set type x every operation, plus transaction-level histories with reopen",
+         "Exhaustive for the bounded scope on ds/set.Set (81 states, all ops/args, all short sequences) plus transaction histories covering SAdd/SRem/SPop/SMove* and every read; SMove durability checked through reopen.",
+         "SPop is non-deterministic in the model (any member); empty set and missing set are the same observation."),
+ "C07": ("refmodel", "exploration", "runtime monitor: (score,key)-ordered reference model + skip-list structural walker + node-identity check, bounded-exhaustive over states x layouts x arguments, plus transaction histories",
+         "All 625 states x several random skip-list layouts x every operation and argument; walker (order, spans==ranks, backward chain, Dict<=>list) after every mutation; every returned node must be the registered member.",
+         "Finite scores only; rank semantics as documented on GetByRankRange (1-based, negative from the end, clamped)."),
  "C01": ("refmodel", "exploration", "runtime monitor: reference-model comparator (ordered map with TTL) over generated histories + B+ tree structural walker",
          "Thousands of seeded histories (small segments, shared-prefix keys, TTL on both sides of expiry, reopen points) run against the real DB; every read result is compared with an independent model. Held = on the executions produced.",
          "Trusts the reference model's reading of the documented semantics; expiry cases are kept >=10^6 s from the boundary."),
